@@ -207,8 +207,9 @@ def _sign_convention(res, index):
                 if s.endswith("[:,3]") or s.endswith("[3]"):
                     ok = True
             if pol == "add" and isinstance(node, ast.BinOp) and isinstance(node.op, ast.Add):
-                s = (ast.unparse(node.left) + "|" + ast.unparse(node.right)).replace(" ", "")
-                if "[:,3]" in s and "dots" in s or ("[:,3]" in s and "inner" in s):
+                l, r = ast.unparse(node.left).replace(" ", ""), ast.unparse(node.right).replace(" ", "")
+                # (projection of the points on the normals) + offsets, in either order, neither side negated
+                if (l.endswith("[:,3]") and not l.startswith("-")) != (r.endswith("[:,3]") and not r.startswith("-")):
                     ok = True
             if pol == "negmax" and isinstance(node, ast.UnaryOp) and isinstance(node.op, ast.USub):
                 s = ast.unparse(node.operand)
